@@ -648,7 +648,10 @@ pub(crate) fn shr(lhs: Number, rhs: Number, arena: &mut Arena) -> Result<Number,
                 }
             };
 
-            let res = lhs.get_num().checked_shr(rhs).unwrap_or(0);
+            // NOTE: an arithmetic right shift rounds toward negative infinity,
+            // so shifting out every bit of a negative number leaves -1, not 0.
+            let lhs = lhs.get_num();
+            let res = lhs.checked_shr(rhs).unwrap_or(if lhs < 0 { -1 } else { 0 });
             Ok(Number::arena_from(res, arena))
         }
         Number::Integer(lhs) => {
@@ -664,7 +667,13 @@ pub(crate) fn shr(lhs: Number, rhs: Number, arena: &mut Arena) -> Result<Number,
                 }
             };
 
-            Ok(Number::arena_from(Integer::from(&*lhs >> rhs), arena))
+            let res = Integer::from(&*lhs >> rhs);
+
+            if lhs.is_negative() && res.is_zero() {
+                Ok(Number::arena_from(Integer::from(-1), arena))
+            } else {
+                Ok(Number::arena_from(res, arena))
+            }
         }
         other => Err(numerical_type_error(ValidType::Integer, other, stub_gen)),
     }
